@@ -12,7 +12,7 @@ from framework import CaseResult, Check
 from reffile import RefFile
 
 SEG_POOLS = ['title', 'extdata', 'dbs', 'content', 'Nintendo', '00040000', '0f70c600', 'cmd', 'backup', 'Data', 'ÄÖü', 'あい漢字',
-             '\U0001F600x', '00000000.app', 'save.bin', 'ticket.db', 'AbC.DeF']
+             '\U0001F600x', '00000000.app', 'save.bin', 'ticket.db', 'AbC.DeF', 'Straße', 'ΛΟΓΟΣ', 'ﬁle.bin', 'İstanbul']
 
 
 def expected_iv(path):
